@@ -103,10 +103,12 @@ def same(a, b):
 
 
 # ---------------------------------------------------------------------------
-def to_z3_real(roots, var_of=None):
-  """Real relaxation.  Returns (dict nid -> z3 expr, dict name -> z3 var)."""
+def to_z3_real(roots, var_of=None, override=None):
+  """Real relaxation.  Returns (dict nid -> z3 expr, dict name -> z3 var).
+  override: {nid: z3 expr} - cut points whose sub-graphs are replaced by the given expressions."""
   import z3
   vars_ = {}
+  override = override or {}
 
   def var(name, boolean=False):
     if name not in vars_:
@@ -121,6 +123,9 @@ def to_z3_real(roots, var_of=None):
   val = {}
   for n in _topo(roots):
     op = n.op
+    if n.nid in override:
+      val[n.nid] = override[n.nid]
+      continue
     A = [val[a.nid] for a in n.args]
     if op == "fconst":
       v = float(ir.bits_f32(n.attr))
